@@ -65,7 +65,7 @@ def run(tier, seed):
         behaviours += [to_behaviour(len(behaviours) + i, x) for i, x in enumerate(recs)]
     if tier == "thorough":
         # long random programs (up to 12 steps) by simulation
-        r = vlib.tlc("MC_C12", "MC_C12_sim", workers=4, simulate=20000, depth=80, seed=seed, timeout=1500)
+        r = vlib.tlc("MC_C12", "MC_C12_sim", workers=1, simulate=20000, depth=80, seed=seed, timeout=1500)
         if not r["ok"]:
             raise vlib.ToolError("simulation failed: %s" % r["error"])
         recs = r["records"].get("REPLAY", [])
